@@ -36,6 +36,8 @@ import IvpModel.Proofs.ScaleRk4
 import IvpModel.Proofs.DupDopri5
 import IvpModel.Proofs.DupRk23
 import IvpModel.Proofs.DupRk4
+import IvpModel.Proofs.DupDop853
+import Mathlib.Analysis.Real.Sqrt
 
 noncomputable section
 variable {K : Type} [Field K] [LinearOrder K] [IsStrictOrderedRing K] [SqrtPow K]
@@ -311,6 +313,29 @@ theorem c13_copies_rk4_whole_run {σ : Type} {n : Nat} (m : Nat) (hm : 0 < m) (h
       = (Ctl.rk4Solve P f ob obs0 x0 y0 h fuel).map (Ctl.dResult m hn) :=
   Ctl.rk4Solve_dup m hn P (Ctl.blockRhs m hn f) f (Ctl.blockRhs_dup m hn f) (Ctl.firstCopyObs m hn hm ob) ob
     (Ctl.firstCopyObs_dup m hn hm ob) obs0 x0 y0 h fuel
+
+/-- **Whole runs of DOP853 on `m ≥ 1` independent copies of a system** (block-diagonal system, stacked tolerances, given first
+    step), for a square root with `sqrt(a / b²) = sqrt(a) / b` (`Ctl.SqrtDiv`; the real square root has it: `sqrtDiv_real`).
+    DOP853's estimate is `|h|·err·sqrt(1/(n·deno))` with `err`, `deno` sums over the components, so this law — exact for the real
+    square root, true up to rounding in binary64 — is what "up to rounding in the error norm" refers to. -/
+theorem c13_copies_dop853_whole_run {σ : Type} {n : Nat} (hsq : Ctl.SqrtDiv K) (m : Nat) (hm : 0 < m) (hn : 0 < n) (L : Ctl.HLits K)
+    (xend posneg uround safety scaleMin scaleMax beta hmax : K) (nmax nstiff : Nat) (dense : Bool) (atol rtol : Ctl.Vec K n)
+    (f : Ctl.Rhs K n) (ob : Ctl.Obs σ K n) (obs0 : σ) (x0 : K) (y0 : Ctl.Vec K n) (h0 : K)
+    (hinit : Ctl.Rhs K n → Ctl.Vec K n → K × Array (K × Ctl.Vec K n))
+    (hinit' : Ctl.Rhs K (m * n) → Ctl.Vec K (m * n) → K × Array (K × Ctl.Vec K (m * n))) (fo hl : K) (fuel : Nat) :
+    Ctl.hSolve (Ctl.dop853Params L xend posneg uround safety scaleMin scaleMax beta hmax nmax nstiff dense)
+        (Ctl.dop853Kernel (Ctl.dupV m hn atol) (Ctl.dupV m hn rtol)) (Ctl.blockRhs m hn f) (Ctl.firstCopyObs m hn hm ob) obs0 x0
+        (Ctl.dupV m hn y0) (some h0) hinit' fo hl fuel
+      = (Ctl.hSolve (Ctl.dop853Params L xend posneg uround safety scaleMin scaleMax beta hmax nmax nstiff dense) (Ctl.dop853Kernel atol rtol)
+        f ob obs0 x0 y0 (some h0) hinit fo hl fuel).map (Ctl.dResult m hn) :=
+  Ctl.dop853Solve_dup m hn hsq hm L xend posneg uround safety scaleMin scaleMax beta hmax nmax nstiff dense atol rtol (Ctl.blockRhs m hn f) f
+    (Ctl.blockRhs_dup m hn f) (Ctl.firstCopyObs m hn hm ob) ob (Ctl.firstCopyObs_dup m hn hm ob) obs0 x0 y0 h0 hinit hinit' fo hl fuel
+
+/-- the hypothesis `SqrtDiv` holds for the real square root (with any power function) -/
+theorem sqrtDiv_real (p : ℝ → ℝ → ℝ) : @Ctl.SqrtDiv ℝ _ _ ⟨Real.sqrt, p⟩ := by
+  intro a b hb
+  show Real.sqrt (a / (b * b)) = Real.sqrt a / b
+  rw [Real.sqrt_div' a (mul_self_nonneg b), Real.sqrt_mul_self hb.le]
 
 /-- BDF's norm (translated from bdf.rs) is invariant under a common scaling of values and scales, whatever their size -/
 theorem c13_scale_bdf_norm {n : Nat} (c : K) (hc : c ≠ 0) (values scale : Vector K n) (hnz : ∀ i : Fin n, scale[i] ≠ 0) :
